@@ -420,7 +420,12 @@ pub fn c01(tier: Tier) -> i32 {
             1 => vec!['a', 'b', 'é', '€'],
             _ => "abcdefghijklmnopqrstuvwxyz0123456789αβγδεζηθικλμ".chars().collect(),
         };
-        let n = rng.range(40, 150);
+        // one case in ten: more than 256 patterns in the mode (pattern numbers beyond a byte)
+        let many = letters.len() > 4 && rng.chance(1, 10);
+        let n = if many { rng.range(257, 300) } else { rng.range(40, 150) };
+        if many {
+            st.count("modes_with_more_than_256_patterns");
+        }
         let lit = |c: char| Re::Lit(c, LitStyle::Verbatim);
         let mut words: Vec<String> = Vec::new();
         let common_first = rng.chance(1, 2);
@@ -520,7 +525,7 @@ pub fn c01(tier: Tier) -> i32 {
     }
 
     let report = Report::new(
-        "stream 7: one scanner used for 2-4 inputs by successive iterators (some left early), then 1-3 resets of the last iterator to random offsets; every stream judged by the full rule from its start offset; stream 6: long tokens - 1-4 patterns from a pool of run-shaped patterns (a+, [bc]+d, string and comment literals, multi-byte runs, (fg)*, (h|hi)+j, counted classes, .+) in random priority order, inputs of 2-7 pieces with lengths around 256, 32 768, 65 536 and 131 072 characters and in between (up to 0.9 MB), every token compared with the derivative-based reference tokenizer (longest match, first listed pattern, skip); stream 5: large modes of 40-150 patterns (keyword sets with shared prefixes over 3 to 48 letters plus general patterns; automata with hundreds of states); stream 4: the valid rows of the repository's tests/match_test.rs re-judged by the reference; stream 1: random lookahead-free modes (1-6 patterns as IR: literals in all escape styles, dot, classes, Perl classes, groups, alternation incl. empty branches, * + ? {m} {m,} {m,n}; token types by index or arbitrary u32 values) x inputs of 0-40 chars built from members/near-misses of the pattern languages plus noise, through build_uncached / build / add_patterns; stream 2: every IR term with <= k operators over {a,b} as single pattern x every string over {a,b,z} up to length L (exhaustive sub-space); thorough adds sampled term pairs. Oracle: denotational matcher + longest-match/first-pattern/skip rule. A case is non-trivial if tokens were produced and a tie-break, a later-pattern-wins-by-length or a skip event occurred (stream 1) / a token was produced (stream 2); distinct by hash of (configuration, input).",
+        "stream 7: one scanner used for 2-4 inputs by successive iterators (some left early), then 1-3 resets of the last iterator to random offsets; every stream judged by the full rule from its start offset; stream 6: long tokens - 1-4 patterns from a pool of run-shaped patterns (a+, [bc]+d, string and comment literals, multi-byte runs, (fg)*, (h|hi)+j, counted classes, .+) in random priority order, inputs of 2-7 pieces with lengths around 256, 32 768, 65 536 and 131 072 characters and in between (up to 0.9 MB), every token compared with the derivative-based reference tokenizer (longest match, first listed pattern, skip); stream 5: large modes of 40-150 (one in ten: 257-300) patterns (keyword sets with shared prefixes over 3 to 48 letters plus general patterns; automata with hundreds of states); stream 4: the valid rows of the repository's tests/match_test.rs re-judged by the reference; stream 1: random lookahead-free modes (1-6 patterns as IR: literals in all escape styles, dot, classes, Perl classes, groups, alternation incl. empty branches, * + ? {m} {m,} {m,n}; token types by index or arbitrary u32 values) x inputs of 0-40 chars built from members/near-misses of the pattern languages plus noise, through build_uncached / build / add_patterns; stream 2: every IR term with <= k operators over {a,b} as single pattern x every string over {a,b,z} up to length L (exhaustive sub-space); thorough adds sampled term pairs. Oracle: denotational matcher + longest-match/first-pattern/skip rule. A case is non-trivial if tokens were produced and a tie-break, a later-pattern-wins-by-length or a skip event occurred (stream 1) / a token was produced (stream 2); distinct by hash of (configuration, input).",
     )
     .floor("tie_break", 1000)
     .floor("later_wins_by_length", 1000)
@@ -531,6 +536,7 @@ pub fn c01(tier: Tier) -> i32 {
     .floor("systematic_scans", 100_000)
     .floor("repository_rows_checked", 100)
     .floor("large_mode_scans", 1_000)
+    .floor("modes_with_more_than_256_patterns", 20)
     .floor("streams_on_reused_scanner_checked", 20_000)
     .floor("streams_after_reset_checked", 5_000)
     .floor("long_token_scans", if cfg!(feature = "hooks") { 50 } else { 0 })
